@@ -15,9 +15,15 @@ def plans(tier):
             dict(gens="hole,collapse", variants="base,again,rev,ringrev", n=15000, W=8, nmax=12, bias=0.5, seed=s + 2)]
 
 
+def real_plans(tier):
+    s = vlib.seed()
+    q = tier == "quick"
+    return [dict(real=True, gens="star,hole,spiky,arbitrary", variants="base,again,rev", n=300 if q else 10000, seed=s + 50, where="interior,origin,nl")]
+
+
 def run(tier):
     return snapcheck.run_snap_property(
-        PROP, tier, "SnapTrace_C07.cfg", plans(tier), second_process=True,
+        PROP, tier, "SnapTrace_C07.cfg", plans(tier), real_plans=real_plans(tier), real_cfg="RealTrace_C07.cfg", second_process=True,
         rule="every input is snapped twice in one process and once more in a separate process (Go randomises map iteration per range "
              "and per process), with the reverse flag toggled, and (valid polygons) with the shell / a random subset of rings reversed; "
              "TLC decides which records of a group have equal inputs and demands identical (resp. ring-wise reversed) results")
